@@ -158,29 +158,37 @@ def s3(ctx, rep):
 def s4(ctx, rep):
     P = ctx.P
     f = P.func("syne_tune.blackbox_repository.utils.metrics_for_configuration")
-    app = [x for x in walk_shallow(f.node) if isinstance(x, ast.Call) and fn_name(x) == "append"]
+    from ..engine import deref
+    from .common import returned_list_sites
     ov = var_from_call(f, "objective_function")
     fv = vars_assigned_from(f, lambda v: isinstance(v, ast.Attribute) and v.attr == "fidelity_values")
     if ov is None or len(fv) != 1:
         raise AnchorError("metrics_for_configuration: table query / fidelity values not found")
-    ok = len(app) == 1
+    # the elements of the returned list, whichever way it is built (append in a loop, or a comprehension)
+    sites = returned_list_sites(ctx, f)
+    ok = len(sites) == 1
     if ok:
-        from ..engine import deref
-        v = argn(app[0], 0)
-        ds = [d for d in local_defs(f, U(v)) if not isinstance(d, tuple)] if isinstance(v, ast.Name) else [v]
-        ok = len(ds) == 1 and isinstance(ds[0], ast.Call) and fn_name(ds[0]) == "dict" and ds[0].args
-        z = deref(f, argn(ds[0], 0)) if ok else None
-        ok = ok and isinstance(z, ast.Call) and fn_name(z) == "zip" and "objectives_names" in U(argn(z, 0)) and ov is not None \
-            and isinstance(deref(f, argn(z, 1)), ast.Subscript) and U(deref(f, argn(z, 1)).value) == ov
+        e = deref(f, sites[0][1])
+        # a fresh dictionary: dict(zip(names, row)) or a display {**dict(zip(names, row)), ...}; never the row object itself
+        fresh = (isinstance(e, ast.Call) and fn_name(e) == "dict") or isinstance(e, (ast.Dict, ast.DictComp))
+        zs = [z for z in ast.walk(e) if isinstance(z, ast.Call) and fn_name(z) == "zip" and len(z.args) == 2]
+        zs += [deref(f, y) for y in ast.walk(e) if isinstance(y, ast.Name) and isinstance(deref(f, y), ast.Call) and fn_name(deref(f, y)) == "zip"]
+        ok = fresh and len(zs) == 1 and "objectives_names" in U(argn(zs[0], 0)) \
+            and isinstance(deref(f, argn(zs[0], 1)), ast.Subscript) and U(deref(f, argn(zs[0], 1)).value) == ov
     rep.put(ok, "S4", "taint", "metrics_for_configuration: each level is a fresh dict(zip(names, table row))", f, None, "",
             "reported results are not fresh copies of the table row: later in-place corrections would alter the table")
     idx = None
-    for x in walk_shallow(f.node):
-        if isinstance(x, ast.For) and isinstance(x.iter, ast.Call) and fn_name(x.iter) == "enumerate" and U(argn(x.iter, 0)) == fv[0]:
-            idx = U(x.target.elts[0])
-            val = U(x.target.elts[1])
-            ok2 = f"{ov}[{idx}]" in U(x) and any(isinstance(s, ast.Assign) and U(s.targets[0]).endswith("[resource_attr]") and U(s.value) == val
-                                                               for s in stmts_in(x.body))
+    gens = [(x, x.target, x.iter, x) for x in walk_shallow(f.node) if isinstance(x, ast.For)] + \
+           [(x, g_.target, g_.iter, x) for x in walk_shallow(f.node) if isinstance(x, (ast.ListComp, ast.GeneratorExp)) for g_ in x.generators]
+    for x, tg, it, scope in gens:
+        if isinstance(it, ast.Call) and fn_name(it) == "enumerate" and U(argn(it, 0)) == fv[0] and isinstance(tg, ast.Tuple) and len(tg.elts) == 2:
+            idx = U(tg.elts[0])
+            val = U(tg.elts[1])
+            stamped = any(isinstance(s, ast.Assign) and U(s.targets[0]).endswith("[resource_attr]") and U(s.value) == val
+                          for s in (stmts_in(x.body) if isinstance(x, ast.For) else [])) or \
+                any(isinstance(d, ast.Dict) and any(k_ is not None and U(k_) == "resource_attr" and U(v_) == val for k_, v_ in zip(d.keys, d.values))
+                    for d in ast.walk(scope))
+            ok2 = f"{ov}[{idx}]" in U(scope) and stamped
             rep.put(ok2, "S4", "agreement", "metrics_for_configuration: row k of the table is reported with fidelity value k (same index)", f, x, "")
     if idx is None:
         raise AnchorError("metrics_for_configuration: loop over fidelities not found")
@@ -274,19 +282,28 @@ def s2b(ctx, rep):
             "the filter keeps the events of the trial to be removed and drops everybody else's: a stopped trial goes on reporting, running ones fall silent")
     g = P.method("_BlackboxSimulatorBackend", "_run_job_and_collect_results")
     cg = cfg_of(g)
-    loops = [n.id for n in cg.nodes if n.kind == "for" and isinstance(n.ast.iter, ast.Name)
-             and any(isinstance(y, ast.Call) and fn_name(y) == "append" for s_ in n.ast.body for y in ast.walk(s_))]
-    require_guard(ctx, rep, "S5", g, "_BlackboxSimulatorBackend._run_job_and_collect_results: levels are skipped | the trial was paused and checkpointing is supported", loops,
-                  [("paused level is not None", lambda a: a[0] == "is" and a[2] == "None" and a[3] is False),
-                   ("self._support_checkpointing", lambda a: a[0] == "truth" and a[1] == "self._support_checkpointing" and a[2] is True)],
-                  "a script without checkpointing restarts from scratch after a resume, but its early levels are dropped (or a checkpointed one repeats them)")
+    # the places where only some of the table's levels enter the returned list (an append under a condition in the scan, or a
+    # filtering comprehension)
+    from .common import returned_list_sites
+    filt = [s_ for s_ in returned_list_sites(ctx, g, index=1) if any(a[0] in ("lt", "le") for a in s_[2])]
+    if not filt:
+        raise AnchorError("_BlackboxSimulatorBackend._run_job_and_collect_results: no place where levels are kept under a condition")
+    for x, elt, at, its in filt:
+        ok = any(a[0] == "is" and a[2] == "None" and a[3] is False for a in at) and \
+            any(a[0] == "truth" and a[1] == "self._support_checkpointing" and a[2] is True for a in at)
+        rep.put(ok, "S5", "guarded_by", "_BlackboxSimulatorBackend._run_job_and_collect_results: levels are skipped | the trial was paused and checkpointing is supported",
+                g, x, "paused level is not None and self._support_checkpointing",
+                "a script without checkpointing restarts from scratch after a resume, but its early levels are dropped (or a checkpointed one repeats them)")
     h = P.func("syne_tune.blackbox_repository.utils.metrics_for_configuration")
     ch = cfg_of(h)
-    app = [n.id for n in ch.nodes for x in ch.node_walk(n.id) if isinstance(x, ast.Call) and fn_name(x) == "append"]
-    require_guard(ctx, rep, "S4", h, "metrics_for_configuration: a level is reported | its fidelity value lies in the requested range (both ends inclusive)", app,
-                  [("range[0] <= value", lambda a: a[0] == "le" and a[1].endswith("[0]")),
-                   ("value <= range[1]", lambda a: a[0] == "le" and a[2].endswith("[1]"))],
-                  "levels outside the requested fidelity range are replayed (or those inside are dropped)")
+    from .common import returned_list_sites
+    sites = returned_list_sites(ctx, h)
+    if not sites:
+        raise AnchorError("metrics_for_configuration: no place where a level enters the returned list")
+    for x, elt, at, its in sites:
+        ok = any(a[0] == "le" and a[1].endswith("[0]") for a in at) and any(a[0] == "le" and a[2].endswith("[1]") for a in at)
+        rep.put(ok, "S4", "guarded_by", "metrics_for_configuration: a level is reported | its fidelity value lies in the requested range (both ends inclusive)",
+                h, x, "range[0] <= value <= range[1]", "levels outside the requested fidelity range are replayed (or those inside are dropped)")
 
 
 def s5b(ctx, rep):
@@ -313,6 +330,23 @@ def s5b(ctx, rep):
                     rep.put(ok, "S5", "agreement", "_BlackboxSimulatorBackend: the repair of elapsed times reads the predecessor from the returned list", g, y,
                             U(x)[:80], f"`{U(y)}` is the predecessor in another list than `{rv}`: after a resume the time stamps are repaired "
                             "against the skipped levels' raw times - resumed results are stamped too late and arrive out of order")
+    # the same repair written over pairs: for previous, current in zip(L, L[1:]): current[k] = max(current[k], previous[k] + eps)
+    for lp in walk_shallow(g.node):
+        if isinstance(lp, ast.For) and isinstance(lp.iter, ast.Call) and fn_name(lp.iter) == "zip" and len(lp.iter.args) == 2 \
+                and isinstance(lp.target, ast.Tuple) and len(lp.target.elts) == 2 and all(isinstance(e, ast.Name) for e in lp.target.elts):
+            a_, b_ = lp.iter.args
+            if isinstance(b_, ast.Subscript) and isinstance(b_.slice, ast.Slice) and b_.slice.lower is not None and U(b_.slice.lower) == "1" \
+                    and b_.slice.upper is None:
+                prev, cur = lp.target.elts[0].id, lp.target.elts[1].id
+                repairs = [s for s in stmts_in(lp.body) if isinstance(s, ast.Assign) and isinstance(s.targets[0], ast.Subscript)
+                           and U(s.targets[0].value) == cur and isinstance(s.value, ast.Call) and fn_name(s.value) == "max"
+                           and any(isinstance(y, ast.Name) and y.id == prev for y in ast.walk(s.value))]
+                for s in repairs:
+                    n += 1
+                    ok = U(a_) == rv and U(b_.value) == rv
+                    rep.put(ok, "S5", "agreement", "_BlackboxSimulatorBackend: the repair of elapsed times reads the predecessor from the returned list", g, s,
+                            U(s)[:80], f"the pairs come from `{U(lp.iter)}`, not from consecutive elements of `{rv}`: after a resume the time stamps are "
+                            "repaired against the skipped levels' raw times - resumed results are stamped too late and arrive out of order")
     if n < 1:
         raise AnchorError("_run_job_and_collect_results: monotonicity repair `results[i] = max(results[i], results[i - 1] + eps)` not found")
 
